@@ -510,3 +510,30 @@ func sexpString(v interface{}) string {
 	}
 	return ""
 }
+
+// ScriptCandidate: a REDUCED query used only to find candidate entry states for an undecided obligation (timeout /
+// unknown): hypotheses within the given radius of the goal, every precondition of the unit, quantified hypotheses other
+// than preconditions dropped. A model of it proves nothing; it is a state to run the real code on (replay2.go).
+func (ob *Obligation) ScriptCandidate(radius int, extra []*Term, getValues []*Term) string {
+	ass := ob.exec.assumptions[:ob.NAss]
+	neg := Not(ob.Goal)
+	terms := sliceRadius(ass, radius, ob.PC, neg)
+	memo := map[*Term]bool{}
+	in := map[*Term]bool{}
+	var keep []*Term
+	for _, t := range terms {
+		if !hasQuant(t, memo) {
+			keep = append(keep, t)
+			in[t] = true
+		}
+	}
+	for _, a := range ass {
+		if strings.HasPrefix(a.Lbl, "requires:") && !in[a.T] {
+			keep = append(keep, a.T)
+			in[a.T] = true
+		}
+	}
+	keep = append(keep, ob.PC, neg)
+	keep = append(keep, extra...)
+	return Script(keep, getValues, "")
+}
